@@ -313,6 +313,11 @@ def generate(run_seed, tier):
             'N': N2, 'weight_family': fam2, 'weights': gen_weights(d, N2, fam2),
             'samples_u': [[d.uniform(0.02, 0.98) for _ in fit]
                           for _ in range(N2)]}]
+        if c.random() < 0.4:
+            # not a second mode but a second FIT: the sampler's store is
+            # replaced and the same solution index is post-processed again by
+            # the same long-lived optimizer
+            cfg['refit'] = True
     s = st('sched')
     bias = s.choice(['random', 'random', 'starve_last', 'starve_first',
                      'natural'])
@@ -357,6 +362,11 @@ def make_optimizer_class():
         def get_weights(self, solution_id):
             return self._w[solution_id] if isinstance(self._w, list) \
                 else self._w
+
+        def replace_store(self, samples, weights):
+            """A new sampler run finished: one solution, new posterior."""
+            self._s = samples
+            self._w = weights
 
         def update_model(self, fit_params):
             self.seen.append(tuple(float(x) for x in fit_params))
@@ -462,6 +472,7 @@ def execute(case, keep_text=False):
         posts.append((sm.reshape(pc['N'], len(order)),
                       np.array(pc['weights'], dtype=float)))
     nsol = len(posts)
+    refit = bool(cfg.get('refit')) and nsol > 1
     N = cfg['N']
     samples, weights = posts[0]
     derived = [d for d in cfg['derived']]
@@ -479,11 +490,15 @@ def execute(case, keep_text=False):
             pyrandom.seed(cfg['pyseed'])
         res = []
         for sid in range(nsol):
+            api_sid = sid
+            if refit:
+                opt.replace_store(posts[sid][0].copy(), posts[sid][1].copy())
+                api_sid = 0
             opt.seen = []
-            prof, spec = opt.generate_profiles(sid, obs.wavenumberGrid)
+            prof, spec = opt.generate_profiles(api_sid, obs.wavenumberGrid)
             allphases[sid][r]['profiles_seen'] = list(opt.seen)
             opt.seen = []
-            dtrace = opt.compute_derived_trace(sid) if derived else None
+            dtrace = opt.compute_derived_trace(api_sid) if derived else None
             allphases[sid][r]['derived_seen'] = list(opt.seen)
             res.append((prof, spec, dtrace))
         return res
@@ -499,13 +514,16 @@ def execute(case, keep_text=False):
         def body1(r):
             model, obs, opt = _build_rank(cfg, [p[0].copy() for p in posts],
                                           [p[1].copy() for p in posts])
-            got['d'] = opt.compute_derived_trace(sid)
+            if refit:
+                opt.replace_store(posts[sid][0].copy(), posts[sid][1].copy())
+            got['d'] = opt.compute_derived_trace(0 if refit else sid)
         w1.run(body1)
         if w1.errors[0] is not None or w1.deadlock:
             return {}
         return got.get('d') or {}
     if nsol > 1:
-        out.bump('probes', 'second_solution_same_objects')
+        out.bump('probes', 'second_fit_same_optimizer' if refit
+                 else 'second_solution_same_objects')
     out.bump('steps', 'collectives', world.ncollectives)
     out.bump('steps', 'world_runs')
     out.bump('faults', 'serialised_bytes', world.bytes_pickled)
